@@ -395,16 +395,32 @@ func smtName(s string) string {
 
 // splitGoal decomposes a goal into conjuncts that are jointly equivalent to it:
 // (and a b) -> a, b;  (=> g (and a b)) -> (=> g a), (=> g b);  (forall x (and a b)) -> (forall x a), (forall x b).
-func splitGoal(t *Term) []*Term {
+// Under a quantifier every part keeps its sibling conjuncts as arguments of the always-true predicate keep!terms
+// (declared with the split obligations), so that the terms the solver needs for instantiating the assumptions at the
+// skolem constants do not disappear with the siblings.
+func splitGoal(t *Term) []*Term { return splitGoalQ(t, false) }
+
+func splitGoalQ(t *Term, underQ bool) []*Term {
 	switch {
 	case t.Op == "and":
 		var out []*Term
-		for _, a := range t.Args {
-			out = append(out, splitGoal(a)...)
+		for i, a := range t.Args {
+			for _, p := range splitGoalQ(a, underQ) {
+				if underQ {
+					alts := []*Term{p}
+					for j, sib := range t.Args {
+						if j != i {
+							alts = append(alts, App("not", App("keep!terms", sib)))
+						}
+					}
+					p = App("or", alts...)
+				}
+				out = append(out, p)
+			}
 		}
 		return out
 	case t.Op == "=>" && len(t.Args) == 2:
-		parts := splitGoal(t.Args[1])
+		parts := splitGoalQ(t.Args[1], underQ)
 		if len(parts) == 1 {
 			return []*Term{t}
 		}
@@ -414,7 +430,7 @@ func splitGoal(t *Term) []*Term {
 		}
 		return out
 	case t.Op == "forall" && len(t.QVars) > 0 && len(t.Args) == 1:
-		parts := splitGoal(t.Args[0])
+		parts := splitGoalQ(t.Args[0], true)
 		if len(parts) == 1 {
 			return []*Term{t}
 		}
